@@ -77,6 +77,13 @@ func (c13) Gen(r *rand.Rand, tier string, run int) *core.Case {
 		c.Params["sibling"] = 1
 		c.Params["sibling_after"] = r.IntN(80)
 	}
+	if r.IntN(4) == 0 {
+		// a second service of the same kind on the same server, watched
+		// through connection 0: same object id, same signal ids, other service
+		c.Params["twin"] = 1
+		c.Params["twin_events"] = 2 + r.IntN(7)
+		c.Params["twin_pause"] = r.IntN(30)
+	}
 	emit := func(n int) {
 		for i := 0; i < n; i++ {
 			c.Ops = append(c.Ops, core.Op{Kind: "emit", Actor: 50, X: int64(r.IntN(4)), Y: int64(r.IntN(4))})
@@ -242,6 +249,8 @@ type c13emit struct {
 }
 
 type c13state struct {
+	twinSent [4][]int32
+	twinGot  [4][]int32
 	mu    sync.Mutex
 	subs  []*c13sub
 	emits []c13emit
@@ -374,6 +383,90 @@ func (c13) Run(c *core.Case, env *core.Env) {
 			env.Probe("sibling-object-removed")
 		}()
 	}
+	var twinWG sync.WaitGroup
+	if c.P("twin", 0) == 1 {
+		zzsim.SetNode("server")
+		timpl := &ProbeImpl{Env: env, Obj: 8}
+		twin, err := w.Srv.NewService("Twin", probe.ProbeObject(timpl))
+		zzsim.SetNode("harness")
+		if err != nil {
+			env.Violate("setup/twin", "%v", err)
+			return
+		}
+		tp, err := ProbeProxy(clients[0], twin.ServiceID(), 1)
+		if err != nil {
+			env.Violate("setup/twin", "%v", err)
+			return
+		}
+		_, t1, e1 := tp.SubscribeTick()
+		_, t2, e2 := tp.SubscribeTock()
+		_, t3, e3 := tp.SubscribeLevel()
+		_, t4, e4 := tp.SubscribeNote()
+		if e1 != nil || e2 != nil || e3 != nil || e4 != nil {
+			env.Violate("setup/twin", "%v %v %v %v", e1, e2, e3, e4)
+			return
+		}
+		got := func(i int, v int32) {
+			st.mu.Lock()
+			st.twinGot[i] = append(st.twinGot[i], v)
+			st.mu.Unlock()
+		}
+		go func() {
+			for v := range t1 {
+				got(0, v)
+			}
+		}()
+		go func() {
+			for v := range t2 {
+				got(1, v)
+			}
+		}()
+		go func() {
+			for v := range t3 {
+				got(2, v)
+			}
+		}()
+		go func() {
+			for v := range t4 {
+				got(3, c13noteVal(v))
+			}
+		}()
+		twinWG.Add(1)
+		go func() {
+			defer twinWG.Done()
+			zzsim.SetNode("server")
+			for k := int32(1); k <= int32(c.P("twin_events", 0)); k++ {
+				for j := 0; j < c.P("twin_pause", 0); j++ {
+					zzsim.Yield("h.twin-pause")
+				}
+				i := int(k) % 4
+				var v int32
+				var err error
+				switch i {
+				case 0:
+					v = 500000 + k
+					err = timpl.Helper.SignalTick(v)
+				case 1:
+					v = -(500000 + k)
+					err = timpl.Helper.SignalTock(v)
+				case 2:
+					v = 1500000 + k
+					err = timpl.Helper.UpdateLevel(v)
+				default:
+					v = 2500000 + k
+					err = timpl.Helper.SignalNote(c13note(500000 + k))
+				}
+				if err != nil {
+					env.Violate("twin-service/emit", "%v", err)
+				}
+				st.mu.Lock()
+				st.twinSent[i] = append(st.twinSent[i], v)
+				st.mu.Unlock()
+				env.Probe("events-of-a-twin-service-on-the-same-connection")
+			}
+		}()
+	}
+	defer twinWG.Wait()
 	// statistics and tracing change the path replies and events take inside
 	// an object (wrapped channels, a tracer per message)
 	if k := c.P("instrument", 0); k > 0 {
@@ -766,7 +859,7 @@ func (c13) Check(c *core.Case, env *core.Env, res zzsim.Result, v *core.Verdict)
 						zeroAt[i] = c13seqOf(s2cMarks, f.End)
 					}
 				}
-			case f.Type == ref.Event && f.Object == 1 && (f.Action == SigTick || f.Action == SigTock || f.Action == PropLvl || f.Action == SigNote):
+			case f.Type == ref.Event && f.Service == st.w.ServiceID && f.Object == 1 && (f.Action == SigTick || f.Action == SigTock || f.Action == PropLvl || f.Action == SigNote):
 				i, _ := c13index(f.Action)
 				if wv, ok := c13wireVal(f); ok {
 					_, n := c13decode(wv)
@@ -814,6 +907,12 @@ func (c13) Check(c *core.Case, env *core.Env, res zzsim.Result, v *core.Verdict)
 		}
 	}
 
+	// --- the subscribers of the twin service: its events, nothing else -----
+	for i := range st.twinSent {
+		if fmt.Sprint(st.twinSent[i]) != fmt.Sprint(st.twinGot[i]) {
+			bad("twin-service/not-its-own-events", "the subscriber of signal %d of the twin service (same connection, same object and signal ids, other service) received %v; that service emitted %v", i, st.twinGot[i], st.twinSent[i])
+		}
+	}
 	// --- each subscription interval ---------------------------------------
 	for _, s := range st.subs {
 		name := fmt.Sprintf("subscriber %d (sig%d, connection %d, subscribed [%d..%d], cancel [%d..%d])", s.sub, s.sig, s.conn, s.ackCall, s.ackRet, s.cancelCall, s.cancelRet)
